@@ -406,6 +406,15 @@ func c11Rules(c *Ctx) {
 	add("same-identifier:type-constructor-getter", "services:\n  svc:\n    constructor: \"Thing\"\n    type: \"Thing\"\n    getter: \"Thing\"\n", true)
 	add("same-identifier:two-calls-same-method", "services:\n  svc:\n    value: \"V\"\n    calls: [[\"Add\", [1]], [\"Add\", [1]], [\"Add\", [2], true]]\n", true)
 	add("same-identifier:alias-and-function", "meta:\n  imports: {x: \"my/x\"}\n  functions: {x: \"x.X\"}\nparameters:\n  x: \"%x()%\"\nservices:\n  x:\n    constructor: \"x.X\"\n    tags: [\"x\"]\n", true)
+	// U+212A KELVIN SIGN and U+017F LATIN SMALL LETTER LONG S fold to k and s: they are not ASCII letters
+	for k, bad := range []string{"\u212a", "\u017f", "a\u212a", "\u017fvc", "x\u212ay", "\u00e9", "\u0430"} {
+		add(fmt.Sprintf("non-ascii-letter-%d:service-name", k), "services:\n  \""+bad+"\":\n    value: \"V\"\n", false, bad)
+		add(fmt.Sprintf("non-ascii-letter-%d:parameter-name", k), "parameters:\n  \""+bad+"\": 1\nservices:\n  svc:\n    value: \"V\"\n", false, bad)
+		add(fmt.Sprintf("non-ascii-letter-%d:getter", k), "services:\n  svc:\n    value: \"V\"\n    getter: \"Get"+bad+"\"\n", false, "svc")
+		add(fmt.Sprintf("non-ascii-letter-%d:tag", k), "services:\n  svc:\n    value: \"V\"\n    tags: [\""+bad+"\"]\n", false, "svc")
+		add(fmt.Sprintf("non-ascii-letter-%d:pkg", k), "meta:\n  pkg: \"p"+bad+"\"\nservices:\n  svc:\n    value: \"V\"\n", false)
+		add(fmt.Sprintf("non-ascii-letter-%d:constructor", k), "services:\n  svc:\n    constructor: \"my/pkg.New"+bad+"\"\n", false, "svc")
+	}
 	add("getter-incontext-suffix", "services:\n  svc:\n    value: \"V\"\n    getter: \"GetInContext\"\n", false, "svc")
 	add("getter-reserved", "services:\n  svc:\n    value: \"V\"\n    getter: \"GetParam\"\n", false, "svc")
 	add("getter-ok", "services:\n  svc:\n    value: \"V\"\n    getter: \"GetParam2\"\n", true)
